@@ -208,6 +208,11 @@ func (w *world) request() (dhcpv6.DHCPv6, []pdReq) {
 	return req, pds
 }
 
+// renews: the IA_PD carries no hint (or the empty hint), or exactly one hint naming a held prefix.
+func renews(kinds []int) bool {
+	return len(kinds) == 0 || (len(kinds) == 1 && (kinds[0] == hintNil || kinds[0] == hintOwn))
+}
+
 func maskLen(m net.IPMask) int {
 	ones, bits := m.Size()
 	if bits != 128 {
@@ -228,6 +233,7 @@ func VerifH_prefix_step() {
 	vnd.Unshare()
 
 	vnd.Assert(r != nil || stop, "C13 a built-in handler returns a nil response only together with stop")
+	vnd.Assert(r != nil || stop, "C01 no handler passes a nil response on to its successors (they would dereference it)")
 	vnd.AssertEngine(vnd.HeldLocks() == 0, "C16 prefix plugin lock released")
 	if vnd.Symbolic() {
 		vnd.AssertEngine(vnd.Acquisitions(&w.h.Mutex) <= len(pds), "C16 the prefix handler takes the plugin mutex at most once per IA_PD")
@@ -236,6 +242,13 @@ func VerifH_prefix_step() {
 	out := resp.Options.IAPD()
 	vnd.Assert(len(out) == len(pds), "C08 exactly one IA_PD per requested IA_PD")
 	if len(out) != len(pds) {
+		// whatever else went wrong, an IA_PD of a known client that renews (no
+		// hint, or exactly a held prefix) was not answered
+		for a := range pds {
+			if len(w.own) > 0 && renews(pds[a].kinds) {
+				vnd.Assert(false, "C09 an IA_PD that carries no hint or asks for exactly a held prefix is answered, whatever the other IA_PDs of the message ask for")
+			}
+		}
 		return
 	}
 	post := w.alloc.VerifWords()
@@ -302,6 +315,21 @@ func VerifH_prefix_step() {
 			return f
 		}
 		kinds := pds[a].kinds
+		if len(pds) > 1 && len(w.own) > 0 && renews(kinds) {
+			// next to other IA_PDs: still answered with what the client holds
+			vnd.Cover("renews-next-to-other-iapd")
+			if len(kinds) == 1 && kinds[0] == hintOwn {
+				any := false
+				for _, l := range w.own {
+					any = any || has(l)
+				}
+				vnd.Assert(any, "C09 a request for exactly a held prefix is answered with that prefix, whatever the other IA_PDs of the message ask for")
+			} else {
+				for _, l := range w.own {
+					vnd.Assert(has(l), "C09 a hint-less IA_PD from a known client is answered with the prefixes it holds, whatever the other IA_PDs of the message ask for")
+				}
+			}
+		}
 		if len(pds) == 1 && len(w.own) > 0 {
 			hintless := len(kinds) == 0 || (len(kinds) == 1 && kinds[0] == hintNil)
 			if hintless {
